@@ -3,12 +3,18 @@
 M  TLC (MC_Parser): for every chunk sequence of the bounded universes (balanced or not) the
    transcribed token machine of spec/Parser.tla never gets stuck (dispatch totality), its
    terminal tree satisfies WellFormed (spec/WikiTree.tla) and no open-node state is left.
+   Besides the chunk universes (every sequence of <= 3..5 chunks) there are line universes
+   ("nest*"): documents of 3-4 whole lines, each a list prefix of depth 0..3 and a body that
+   opens an HTML element and leaves it open, closes one at the line start / in running text,
+   or starts / continues / ends a table -- list depth changing while a container opened inside
+   a list item is still open (stacks ROOT > LIST > LIST_ITEM > HTML (> TABLE) > LIST > LIST_ITEM).
 G  every TLC-enumerated chunk sequence is concretised (1-3 spellings per chunk) and parsed by
    the real ctx.parse() three ways (plain, expand_all, pre_expand over a small template
    library): no exception, ROOT, parser stack and mode flags clean; the dumped real tree is
    validated by TLC against WellFormed.  The machine's predicted tree is compared as DRIFT.
 V  seeded random token soups over the full concrete token alphabet, grammar documents,
-   byte/token mutations of the real pages tests/*.txt and a nesting ladder (1..100) are
+   nested line documents (3-8 lines, list depth moving line by line around elements that
+   stay open across lines), byte/token mutations of the real pages tests/*.txt and a nesting ladder (1..100) are
    parsed three ways; every result tree is dumped structurally (harness/parsetree.py),
    de-duplicated by shape, and the batch is validated BY TLC against the same WellFormed
    operator (Trace_WikiTree).  "No exception", ROOT, empty parser_stack and reset mode flags
@@ -170,6 +176,65 @@ def grammar_doc(rng, depth=3):
 
 
 # ---------------------------------------------------------------------------
+# nested line documents (the random, deeper companion of the "nest*" universes of Gen_Parser)
+# ---------------------------------------------------------------------------
+NEST_TAGS = ["span", "ref", "div", "small", "b", "i", "sup", "ul", "li", "table", "tr", "td", "blockquote", "p", "center"]
+NEST_LEAVES = ["w", "two words", "a=b", "{{t}}", "{{d|x}}", "[[L]]", "[[L|t]]", "''", "'''", "<nowiki/>", "<br>",
+               "[http://x.org t]", "{{li}}", "{{sp}}", "{{tb}}", "{{te}}", "{{nl}}", ":", ";"]
+NEST_BOL = ["{|", "|}", "|-", "| c", "! h", "|+ cap", "----", "== h ==", " pre", "<pre>", "</pre>", "{{t\n|a}}", ""]
+
+
+def nested_doc(rng):
+    """3..8 lines; each line a list prefix whose depth moves relative to the line before (same /
+    deeper / shallower / none) and a body that opens elements and leaves them open, closes elements
+    (possibly ones opened lines ago, inside an outer item) at the line start or in running text, or
+    starts / ends a table."""
+    tags = rng.sample(NEST_TAGS, rng.randint(1, 3))
+    marks = rng.choice(["*", "*", "#", ":", "*#", "*:", ";:", "*#:;"])
+    prefix = ""
+    open_tags = []
+    lines = []
+    for _ in range(rng.randint(3, 8)):
+        c = rng.random()
+        if c < 0.3:
+            prefix = prefix + rng.choice(marks)
+        elif c < 0.5:
+            prefix = prefix[:-1]
+        elif c < 0.6:
+            prefix = ""
+        elif c < 0.7:
+            prefix = "".join(rng.choice(marks) for _ in range(rng.randint(1, 3)))
+        prefix = prefix[:5]
+        body = []
+        c = rng.random()
+        if c < 0.35:                      # an end tag as the first token after the prefix
+            t = rng.choice(open_tags) if open_tags and rng.random() < 0.8 else rng.choice(tags)
+            body.append(f"</{t}>")
+            if t in open_tags:
+                open_tags.remove(t)
+        elif c < 0.5:
+            body.append(rng.choice(NEST_BOL))
+        for _ in range(rng.randint(0, 3)):
+            c = rng.random()
+            if c < 0.4:
+                body.append(rng.choice(NEST_LEAVES))
+            elif c < 0.75:
+                t = rng.choice(tags)
+                body.append(f"<{t}>")
+                open_tags.append(t)
+            else:
+                t = rng.choice(open_tags) if open_tags and rng.random() < 0.7 else rng.choice(tags)
+                body.append(f"</{t}>")
+                if t in open_tags:
+                    open_tags.remove(t)
+        # a line that begins with an end tag mostly comes without a list prefix (the end tag is then
+        # the first token of the line)
+        use_prefix = "" if body and body[0].startswith("</") and rng.random() < 0.6 else prefix
+        lines.append(use_prefix + (" " if use_prefix and rng.random() < 0.5 else "") + rng.choice(["", " "]).join(body))
+    return "\n".join(lines) + rng.choice(["", "\n"])
+
+
+# ---------------------------------------------------------------------------
 # nesting ladder
 # ---------------------------------------------------------------------------
 
@@ -178,6 +243,8 @@ WITNESSES = [
     "{{#if||={{]}}}}", "{{#if||={{a}}}}", "{{#if||1=x}}", "{{PAGENAME||=[[x]]}}", "{{#expr||=''x''}}",
     "==<pre>==", "={{\n}}=", "==[[L\n|x]]==", "{|\n=|=", "{|\n=!!=", "<ref>\n=</ref>=", "<div>\n=</div>=",
     "'''\n='''=", "''\n=''=", "<span>''\n=</span>=", "<pre>", "* <pre>\nx", "== a <pre> ==\nb\n",
+    # subtitle_end_fn must not give a second title argument to a node that already has one (thorough soups)
+    "= =w==", "== =w===\nx",
 ]
 
 
@@ -316,6 +383,24 @@ def slices(d, parent_kind="NONE", out=None):
     return out
 
 
+def raise_site(ctx, text, mode) -> str:
+    """Where a failing parse raises: innermost frame of the traceback (diagnostic text for the
+    report only; no verdict depends on it)."""
+    import traceback
+    try:
+        ctx.start_page("Pg")
+        ctx.pre_parse, ctx.begline_disable_counter, ctx.begline_enabled, ctx.parser_stack = False, 0, True, []
+        with pt.time_limit(PARSE_LIMIT_S):
+            ctx.parse(text, **pt.MODES[mode])
+    except pt.SlowParse:
+        return ""
+    except Exception as e:  # noqa: BLE001
+        tb = traceback.extract_tb(e.__traceback__)
+        if tb:
+            return " [raised in %s:%s(), statement `%s`]" % (Path(tb[-1].filename).name, tb[-1].name, (tb[-1].line or "")[:80])
+    return ""
+
+
 def run_docs(chunk):
     """chunk: list of (doc id, text, want_model).  Returns records
          ("res", doc id, mode, error, flags, shape-kinds>=2)   one per parse
@@ -332,6 +417,8 @@ def run_docs(chunk):
                 for mode in pt.MODES:
                     root, err, flags = pt.parse(ctx, text, mode, limit=PARSE_LIMIT_S)
                     if root is None:
+                        if err != "TIMEOUT" and not err.startswith("RecursionError"):
+                            err += raise_site(ctx, text, mode)
                         out.append(("res", did, mode, err, flags, False))
                         if err == "TIMEOUT":
                             break                  # not judged; the other modes would be as slow
@@ -450,8 +537,12 @@ def collect(o, docs, origin, results, models, trees):
             continue
         if err is not None:
             if not capped(o, "exception:" + err.split(":")[0]):
-                o.violation({"origin": origin, "mode": mode, "text": text, "error": err},
-                            f"parse(..., {mode}) raised {err}", cls="exception:" + err.split(":")[0])
+                why = f"parse(..., {mode}) raised {err}"
+                if origin.startswith("G:"):
+                    why += ("; the specification's machine (Gen_Parser, MachineOK checked by TLC on this very chunk "
+                            "sequence) parses the input to a well-formed ROOT without getting stuck")
+                o.violation({"origin": origin, "mode": mode, "text": text, "error": err}, why,
+                            cls="exception:" + err.split(":")[0])
             continue
         if flags != pt.CLEAN_FLAGS:
             case = {"origin": origin, "mode": mode, "text": text, "flags": flags}
@@ -515,6 +606,9 @@ def make_v_docs(tier, rng):
         muts.append(text)
         muts += mutations(rng, text, 3000 if thorough else 100, base, html)
     docs["mutation"] = muts
+    # (own generator: the other families keep the inputs they had before this one was added)
+    rng2 = random.Random(common.seed() * 32452843 + 7)
+    docs["nested"] = [nested_doc(rng2) for _ in range(150000 if thorough else 2500)]
     return docs
 
 
@@ -557,8 +651,13 @@ def run_g(o: Outcome, cfgs, n_alt, stream):
         if stream:
             cases = [c for c in r.cases if c["doc"]]
             r.out = ""
+            line_universe = ["nest" in cfg] * len(cases)
         else:
-            cases = [c for x in r for c in x.cases if c["doc"]]
+            cases, line_universe = [], []
+            for cf, x in zip(cfgs, r):
+                cs = [c for c in x.cases if c["doc"]]
+                cases += cs
+                line_universe += ["nest" in cf] * len(cs)
         ncases += len(cases)
         for c in cases:
             for ch in set(c["doc"]):
@@ -571,7 +670,8 @@ def run_g(o: Outcome, cfgs, n_alt, stream):
             prim, alts = spellings(c["doc"])
             prim_of[len(docs)] = ci
             docs.append(prim)
-            docs += alts[:n_alt]
+            # the line universes vary the line structure, not the spelling: primary spelling only
+            docs += alts[:0 if line_universe[ci] else n_alt]
         models = check_batch(o, docs, "G:" + cfg, want_model=frozenset(prim_of))
         for did, ci in prim_of.items():
             c = cases[ci]
@@ -631,8 +731,10 @@ def run_demos(o: Outcome):
 def run(tier: str) -> int:
     _seen_cls.clear()
     o = Outcome(PID, tier)
-    o.rule = ("M/G: every chunk sequence reachable in the universes of Gen_Parser is one case (parsed in its primary and "
-              "alternative spellings); V: every generated input (token soup over the full concrete alphabet, grammar document, page mutation, "
+    o.rule = ("M/G: every chunk sequence reachable in the universes of Gen_Parser (chunk universes: one chunk per step; line "
+              "universes nest*: one line = list prefix + body per step) is one case (parsed in its primary and "
+              "alternative spellings; line universes: primary spelling); V: every generated input (token soup over the full "
+              "concrete alphabet, grammar document, nested line document, page mutation, "
               "ladder document) x 3 parse modes is one evaluation; trees are de-duplicated by shape before TLC "
               "validates them with WellFormed; distinct_nontrivial counts distinct tree shapes with >= 2 node kinds.")
     o.assumptions = [
@@ -640,13 +742,16 @@ def run(tier: str) -> int:
         "trees larger than %d shape characters or deeper than %d levels are validated as one-level slices (each node with stubs for its child nodes)" % (SLICE_LIMIT, DEPTH_LIMIT),
     ]
     pre = "T" if tier == "thorough" else "Q"
-    run_g(o, [f"Gen_Parser_{pre}{u}.cfg" for u in ("core", "table", "block", "html", "inline", "pre")],
+    # line-structured universes: list depth changing from line to line while an HTML element / a table
+    # opened inside a list item is still open (quick: 3 lines; thorough: wider vocabulary and 4 lines)
+    nest = ("nestW1", "nestW2", "nestW3", "nestW4", "nestL", "nestB", "nestR") if tier == "thorough" else ("nest", "nestR")
+    run_g(o, [f"Gen_Parser_{pre}{u}.cfg" for u in ("core", "table", "block", "html", "inline", "pre") + nest],
           n_alt=1 if tier == "thorough" else 2, stream=(tier == "thorough"))
     o.exhaustive = True
     run_demos(o)
     rng = random.Random(common.seed() * 15485863 + 1)
     docs = make_v_docs(tier, rng)
-    for origin in ("ladder", "grammar", "mutation", "soup"):
+    for origin in ("ladder", "grammar", "nested", "mutation", "soup"):
         t1 = time.time()
         check_batch(o, docs[origin], origin)
         o.extra["phase_seconds"]["V:" + origin] = round(time.time() - t1, 1)
